@@ -327,3 +327,40 @@ def expected_skip(text):
         else:
             break
     return i
+
+
+# ---------------------------------------------------------------------------
+# evaluation of character-level predicates on a probe text held at address BASE
+
+BASE = 4096
+
+
+def string_hooks(text, member_values=None):
+    """(node_hook, deref) for FD.Eval: pointers are BASE + index into `text`; glibc ctype macros are modelled;
+    member_values maps a MemberExpr name to a value (e.g. {'type': ord('S'), 's': BASE})"""
+    member_values = member_values or {}
+
+    def deref(addr, n):
+        k = addr - BASE
+        return ord(text[k]) if 0 <= k < len(text) else 0
+
+    def hook(n, ev):
+        k = n.get("kind")
+        if k == "MemberExpr" and n.get("name") in member_values:
+            return member_values[n.get("name")]
+        if k == "BinaryOperator" and n.get("opcode") == "&":
+            enum = [y["referencedDecl"]["name"] for y in A.walk(A.kids(n)[1]) if y.get("kind") == "DeclRefExpr" and (y.get("referencedDecl") or {}).get("kind") == "EnumConstantDecl"]
+            subs = [y for y in A.walk(A.kids(n)[0]) if y.get("kind") == "ArraySubscriptExpr"]
+            if len(enum) == 1 and enum[0].startswith("_IS") and subs:
+                v = ev.ev(A.kids(subs[0])[1])
+                c = chr(v) if 0 < v < 128 else ""
+                pred = {"_ISalpha": str.isalpha, "_ISdigit": str.isdigit, "_ISalnum": str.isalnum, "_ISspace": str.isspace}.get(enum[0])
+                if pred is None:
+                    raise FD.Unknown("ctype class " + enum[0], n)
+                return 1 if c and pred(c) else 0
+        if k == "ArraySubscriptExpr":
+            base = ev.ev(A.kids(n)[0])
+            idx = ev.ev(A.kids(n)[1])
+            return deref(base + idx, n)
+        return NotImplemented
+    return hook, deref
